@@ -92,30 +92,196 @@ def genericTail (sep rd : List UInt8) : List UInt8 :=
 /-- the labels in wire form, without the root label -/
 def wireLabels (ls : List (List UInt8)) : List UInt8 := ls.flatMap fun l => UInt8.ofNat l.length :: l
 
-/-! ### records and files — the presentation subset of `C23_records_partial`
+/-! ### mnemonics (RFC 1035 §3.2.2, §3.2.4; RFC 3596; RFC 2782) -/
 
-  One entry per line.  Records: `[owner] [ttl] [class] TYPEnnn \# len [hex] [;comment]`, fields
-  separated by runs of blanks; the owner is an absolute name, a relative name (completed with the
-  origin), `@` (the origin) — names in any mix of octet forms — or omitted (leading blanks: same
-  owner as before); TTL and class are written (decimal, `CLASSnnn`, in either order) or omitted.  Directives:
-  `$ORIGIN <absolute name>`, `$TTL <decimal>`.  Blank and comment-only lines.  Not in this subset
-  (see C23.lean): mnemonics, typed RDATA, parentheses, CRLF, a last line
-  without newline. -/
+def upperOctet (b : UInt8) : UInt8 := if 97 ≤ b.toNat ∧ b.toNat ≤ 122 then b - 32 else b
 
-inductive POwner where
-  | same
+/-- TYPE mnemonics a zone file may use, with their values -/
+def typeMnemonics : List (String × Nat) :=
+  [("A", 1), ("NS", 2), ("MD", 3), ("MF", 4), ("CNAME", 5), ("SOA", 6), ("MB", 7), ("MG", 8), ("MR", 9),
+   ("WKS", 11), ("PTR", 12), ("HINFO", 13), ("MINFO", 14), ("MX", 15), ("TXT", 16), ("AAAA", 28), ("SRV", 33)]
+
+/-- CLASS mnemonics -/
+def classMnemonics : List (String × Nat) := [("IN", 1), ("CH", 3), ("HS", 4)]
+
+/-- `text` is the mnemonic for `n` in some mix of upper and lower case -/
+def mnemonicFor (tbl : List (String × Nat)) (text : List UInt8) (n : Nat) : Prop :=
+  ∃ m, (m, n) ∈ tbl ∧ text.map upperOctet = m.toUTF8.toList
+
+/-- a TYPE or CLASS field: a mnemonic (any case) or the RFC 3597 form -/
+inductive PCode where
+  | generic (n : Nat)
+  | mnemonic (text : List UInt8) (n : Nat)
+  deriving Repr, Inhabited
+
+def PCode.value : PCode → Nat
+  | .generic n => n
+  | .mnemonic _ n => n
+
+def typeText : PCode → List UInt8
+  | .generic n => renderType n
+  | .mnemonic t _ => t
+
+def classText : PCode → List UInt8
+  | .generic n => renderClass n
+  | .mnemonic t _ => t
+
+/-! ### names and character-strings as written -/
+
+inductive PName where
   | abs (ls : List PLabel)
   | rel (ls : List PLabel) (l : PLabel)      -- labels `ls ++ [l]`, no trailing dot
   | atSign
   deriving Repr, Inhabited
 
+def nameText : PName → List UInt8
+  | .abs ls => renderAbsName ls
+  | .rel ls l => renderLabels (ls ++ [l])
+  | .atSign => [64]
+
+def labelLines (ls : List PLabel) : Nat := (ls.map fun l => (l.filter fun x => x.2 = .esc ∧ x.1 = 10).length).sum
+
+/-- newlines inside a name (written `\` + newline) -/
+def nameLines : PName → Nat
+  | .abs ls => labelLines ls
+  | .rel ls l => labelLines (ls ++ [l])
+  | .atSign => 0
+
+/-- the name denoted: an absolute name as written; a relative name completed with the origin (if
+    there is one and the result fits in 255 octets); the origin for `@` -/
+def nameWire (origin : Option (List UInt8)) : PName → Option (List UInt8)
+  | .abs ls => some (wireName (ls.map labelOctets))
+  | .rel ls l =>
+    match origin with
+    | some o =>
+      if (wireLabels ((ls ++ [l]).map labelOctets)).length + o.length ≤ 255 then
+        some (wireLabels ((ls ++ [l]).map labelOctets) ++ o)
+      else none
+    | none => none
+  | .atSign => origin
+
+/-- a `<character-string>`: quoted or not, each octet in some form -/
+structure PString where
+  quoted : Bool
+  octets : List (UInt8 × OctetForm)
+  deriving Repr, Inhabited
+
+def stringText (s : PString) : List UInt8 :=
+  if s.quoted then 34 :: (s.octets.flatMap fun x => renderOctet x.1 x.2) ++ [34]
+  else s.octets.flatMap fun x => renderOctet x.1 x.2
+
+def stringOctets (s : PString) : List UInt8 := s.octets.map (·.1)
+
+/-- newlines the reader counts inside a string: raw ones (quoted strings) and `\` + newline -/
+def stringLines (s : PString) : Nat := (s.octets.filter fun x => x.1 = 10 ∧ x.2 ≠ .dec).length
+
+/-- inside quotes everything but `"` and `\` may be written raw; outside, nothing special -/
+def stringFormOK (quoted : Bool) (b : UInt8) : OctetForm → Bool
+  | .raw => if quoted then b != 34 && b != 92 else !special b && b != 34
+  | .esc => !isDigitOctet b
+  | .dec => true
+
+/-! ### RDATA as written -/
+
+inductive PRdata where
+  | generic (rd : List UInt8)                                  -- `\# len hex`, any class and type
+  | a (a b c d : Nat)                                          -- IN A: dotted quad
+  | name (n : PName)                                           -- NS MD MF CNAME MB MG MR PTR
+  | mx (pref : Nat) (n : PName)
+  | soa (m r : PName) (serial refresh retry expire minimum : Nat)
+  | minfo (r e : PName)
+  | srv (prio weight port : Nat) (n : PName)                   -- IN SRV
+  | txt (s : PString) (ss : List PString)
+  | hinfo (cpu os : PString)
+  deriving Repr, Inhabited
+
+def u16Wire (n : Nat) : List UInt8 := [UInt8.ofNat (n / 256 % 256), UInt8.ofNat (n % 256)]
+def u32Wire (n : Nat) : List UInt8 :=
+  [UInt8.ofNat (n / 16777216 % 256), UInt8.ofNat (n / 65536 % 256), UInt8.ofNat (n / 256 % 256), UInt8.ofNat (n % 256)]
+
+def stringWire (s : PString) : List UInt8 := UInt8.ofNat s.octets.length :: stringOctets s
+
+/-- which typed syntax belongs to which class and type -/
+def kindOK (cls ty : Nat) : PRdata → Bool
+  | .generic _ => true
+  | .a .. => cls == 1 && ty == 1
+  | .name _ => [2, 3, 4, 5, 7, 8, 9, 12].contains ty
+  | .mx .. => ty == 15
+  | .soa .. => ty == 6
+  | .minfo .. => ty == 14
+  | .srv .. => cls == 1 && ty == 33
+  | .txt .. => ty == 16
+  | .hinfo .. => ty == 13
+
+/-- the RDATA field(s) as text; `sep` separates the fields -/
+def rdataText (sep : List UInt8) : PRdata → List UInt8
+  | .generic rd => 92 :: 35 :: genericTail sep rd
+  | .a a b c d => decimal a ++ 46 :: (decimal b ++ 46 :: (decimal c ++ 46 :: decimal d))
+  | .name n => nameText n
+  | .mx p n => decimal p ++ (sep ++ nameText n)
+  | .soa m r s1 s2 s3 s4 s5 =>
+    nameText m ++ (sep ++ (nameText r ++ (sep ++ (decimal s1 ++ (sep ++ (decimal s2 ++ (sep ++ (decimal s3 ++
+      (sep ++ (decimal s4 ++ (sep ++ decimal s5)))))))))))
+  | .minfo r e => nameText r ++ (sep ++ nameText e)
+  | .srv p w port n => decimal p ++ (sep ++ (decimal w ++ (sep ++ (decimal port ++ (sep ++ nameText n)))))
+  | .txt s ss => stringText s ++ ss.flatMap fun x => sep ++ stringText x
+  | .hinfo c o => stringText c ++ (sep ++ stringText o)
+
+/-- newlines inside the RDATA text -/
+def rdataLines : PRdata → Nat
+  | .generic _ => 0
+  | .a .. => 0
+  | .name n => nameLines n
+  | .mx _ n => nameLines n
+  | .soa m r .. => nameLines m + nameLines r
+  | .minfo r e => nameLines r + nameLines e
+  | .srv _ _ _ n => nameLines n
+  | .txt s ss => stringLines s + (ss.map stringLines).sum
+  | .hinfo c o => stringLines c + stringLines o
+
+/-- the RDATA denoted (RFC 1035 §3.3, RFC 2782 wire formats); `none` if a name cannot be completed -/
+def rdataWire (origin : Option (List UInt8)) : PRdata → Option (List UInt8)
+  | .generic rd => some rd
+  | .a a b c d => some [UInt8.ofNat a, UInt8.ofNat b, UInt8.ofNat c, UInt8.ofNat d]
+  | .name n => nameWire origin n
+  | .mx p n => (nameWire origin n).map fun w => u16Wire p ++ w
+  | .soa m r s1 s2 s3 s4 s5 =>
+    match nameWire origin m, nameWire origin r with
+    | some wm, some wr => some (wm ++ wr ++ u32Wire s1 ++ u32Wire s2 ++ u32Wire s3 ++ u32Wire s4 ++ u32Wire s5)
+    | _, _ => none
+  | .minfo r e =>
+    match nameWire origin r, nameWire origin e with
+    | some wr, some we => some (wr ++ we)
+    | _, _ => none
+  | .srv p w port n => (nameWire origin n).map fun wn => u16Wire p ++ u16Wire w ++ u16Wire port ++ wn
+  | .txt s ss => some ((s :: ss).flatMap stringWire)
+  | .hinfo c o => some (stringWire c ++ stringWire o)
+
+/-! ### records and files — the presentation subset of `C23_records_partial`
+
+  One entry per line.  Records: `[owner] [ttl] [class] type rdata [;comment]`, fields separated
+  by runs of blanks.  Owner: an absolute name, a relative name (completed with the origin), `@`
+  (the origin) — names in any mix of octet forms — or omitted (leading blanks: same owner as
+  before).  TTL and class written (decimal; mnemonic in any case or `CLASSnnn`; in either order)
+  or omitted.  Type: mnemonic in any case or `TYPEnnn`.  RDATA: the RFC 3597 form `\# len hex`
+  for any class and type, or the typed syntax of A, NS/MD/MF/CNAME/MB/MG/MR/PTR, MX, SOA, MINFO,
+  SRV, TXT, HINFO (names relative / absolute / `@`; character-strings quoted or unquoted with
+  escapes).  Directives: `$ORIGIN <absolute name>`, `$TTL <decimal>`.  Blank and comment-only
+  lines.  Not in this subset (see C23.lean): AAAA, WKS and Chaosnet A typed syntax, parentheses,
+  CRLF, a last line without newline. -/
+
+inductive POwner where
+  | same
+  | named (n : PName)
+  deriving Repr, Inhabited
+
 structure PRecord where
   owner : POwner
   ttl : Option Nat
-  cls : Option Nat
+  cls : Option PCode
   clsFirst : Bool          -- class written before the TTL (matters when both are written)
-  ty : Nat
-  rdata : List UInt8
+  ty : PCode
+  rdata : PRdata
   sep : List UInt8
   trail : List UInt8
   comment : List UInt8
@@ -130,23 +296,21 @@ inductive PEntry where
 
 def ownerText : POwner → List UInt8
   | .same => []
-  | .abs ls => renderAbsName ls
-  | .rel ls l => renderLabels (ls ++ [l])
-  | .atSign => [64]
+  | .named n => nameText n
 
 /-- the TTL and class fields, each written or omitted, in either order -/
-def ttlClassText (sep : List UInt8) (ttl cls : Option Nat) (clsFirst : Bool) : List UInt8 :=
+def ttlClassText (sep : List UInt8) (ttl : Option Nat) (cls : Option PCode) (clsFirst : Bool) : List UInt8 :=
   let t := match ttl with
     | some t => decimal t ++ sep
     | none => []
   let c := match cls with
-    | some c => renderClass c ++ sep
+    | some c => classText c ++ sep
     | none => []
   if clsFirst then c ++ t else t ++ c
 
 def renderRecord (p : PRecord) : List UInt8 :=
   ownerText p.owner ++ p.sep ++ ttlClassText p.sep p.ttl p.cls p.clsFirst ++
-  renderType p.ty ++ p.sep ++ 92 :: 35 :: (genericTail p.sep p.rdata ++ (p.trail ++ p.comment ++ [10]))
+  typeText p.ty ++ p.sep ++ rdataText p.sep p.rdata ++ (p.trail ++ p.comment ++ [10])
 
 def renderEntry : PEntry → List UInt8
   | .blank ws comment => ws ++ comment ++ [10]
@@ -165,7 +329,7 @@ structure SCtx where
   prevTtl : Option Nat := none
   prevClass : Option Nat := none
   defaultTtl : Option Nat := none
-  deriving Repr, Inhabited
+  deriving Repr, DecidableEq, Inhabited
 
 /-- a denoted record: line, owner (wire form), TTL, class, type, RDATA -/
 structure SRecord where
@@ -180,29 +344,20 @@ structure SRecord where
 /-- RFC 2181 §8: a TTL with the most significant bit set is treated as zero -/
 def ttlValue (t : Nat) : Nat := if t > 2147483647 then 0 else t
 
-def labelLines (ls : List PLabel) : Nat := (ls.map fun l => (l.filter fun x => x.2 = .esc ∧ x.1 = 10).length).sum
-
-/-- newlines inside the owner text (written `\` + newline): the lines a record spans beyond one -/
+/-- newlines inside the owner text: the lines a record spans beyond one come from here and from
+    the RDATA -/
 def ownerLines : POwner → Nat
   | .same => 0
-  | .abs ls => labelLines ls
-  | .rel ls l => labelLines (ls ++ [l])
-  | .atSign => 0
+  | .named n => nameLines n
 
-/-- the owner a record line denotes: the written absolute name; a relative name completed with
-    the origin (if that fits in 255 octets); the origin for `@`; the previous owner if omitted -/
+/-- the lines a record's text occupies beyond the first -/
+def recordLines (p : PRecord) : Nat := ownerLines p.owner + rdataLines p.rdata
+
+/-- the owner a record line denotes -/
 def ownerOf (c : SCtx) (p : PRecord) : Option (List UInt8) :=
   match p.owner with
   | .same => c.prevOwner
-  | .abs ls => some (wireName (ls.map labelOctets))
-  | .rel ls l =>
-    match c.origin with
-    | some o =>
-      if (wireLabels ((ls ++ [l]).map labelOctets)).length + o.length ≤ 255 then
-        some (wireLabels ((ls ++ [l]).map labelOctets) ++ o)
-      else none
-    | none => none
-  | .atSign => c.origin
+  | .named n => nameWire c.origin n
 
 /-- the TTL: the written one, else the `$TTL` default, else the previous record's (RFC 2308 §4) -/
 def ttlOf (c : SCtx) (p : PRecord) : Option Nat :=
@@ -213,28 +368,43 @@ def ttlOf (c : SCtx) (p : PRecord) : Option Nat :=
 /-- the class: the written one, else the previous record's -/
 def clsOf (c : SCtx) (p : PRecord) : Option Nat :=
   match p.cls with
-  | some k => some k
+  | some k => some k.value
   | none => c.prevClass
 
-/-- the record a presentation denotes in a context, and the context after it; `none` when
-    something omitted has nothing to default to -/
-def denoteRecord (c : SCtx) (line : Nat) (p : PRecord) : Option (SRecord × SCtx) :=
+/-- the RDATA is written in a syntax of this class and type and, in RFC 3597 form, is valid for them -/
+def rdataOK (valid : Nat → Nat → List UInt8 → Bool) (cls ty : Nat) (rdata : PRdata) (rd : List UInt8) : Bool :=
+  kindOK cls ty rdata &&
+    (match rdata with
+     | .generic _ => valid cls ty rd
+     | _ => true)
+
+/-- The record a presentation denotes in a context, and the context after it; `none` when
+    something omitted has nothing to default to, a name cannot be completed, the RDATA is written
+    in the typed syntax of another class or type, or RDATA given in RFC 3597 form is not valid
+    for the class and type (`valid`: RFC 3597 §5 requires known types to be checked). -/
+def denoteRecord (valid : Nat → Nat → List UInt8 → Bool) (c : SCtx) (line : Nat) (p : PRecord) :
+    Option (SRecord × SCtx) :=
   match ownerOf c p, ttlOf c p, clsOf c p with
   | some owner, some ttl, some cls =>
-    some (⟨line, owner, ttl, cls, p.ty, p.rdata⟩,
-          { c with prevOwner := some owner, prevTtl := some ttl, prevClass := some cls })
+    match rdataWire c.origin p.rdata with
+    | some rd =>
+      if rdataOK valid cls p.ty.value p.rdata rd then
+        some (⟨line, owner, ttl, cls, p.ty.value, rd⟩,
+              { c with prevOwner := some owner, prevTtl := some ttl, prevClass := some cls })
+      else none
+    | none => none
   | _, _, _ => none
 
 /-- the records a file denotes, with their line numbers -/
-def denoteFile : List PEntry → SCtx → Nat → Option (List SRecord)
+def denoteFile (valid : Nat → Nat → List UInt8 → Bool) : List PEntry → SCtx → Nat → Option (List SRecord)
   | [], _, _ => some []
-  | .blank _ _ :: es, c, line => denoteFile es c (line + 1)
+  | .blank _ _ :: es, c, line => denoteFile valid es c (line + 1)
   | .origin ls _ _ _ :: es, c, line =>
-    denoteFile es { c with origin := some (wireName (ls.map labelOctets)) } (line + labelLines ls + 1)
-  | .ttl n _ _ _ :: es, c, line => denoteFile es { c with defaultTtl := some (ttlValue n) } (line + 1)
+    denoteFile valid es { c with origin := some (wireName (ls.map labelOctets)) } (line + labelLines ls + 1)
+  | .ttl n _ _ _ :: es, c, line => denoteFile valid es { c with defaultTtl := some (ttlValue n) } (line + 1)
   | .record p :: es, c, line => do
-    let (r, c') ← denoteRecord c line p
-    let rest ← denoteFile es c' (line + ownerLines p.owner + 1)
+    let (r, c') ← denoteRecord valid c line p
+    let rest ← denoteFile valid es c' (line + recordLines p + 1)
     pure (r :: rest)
 
 end QV.Spec.ZF
